@@ -79,7 +79,7 @@ def init_delays(vc):
                                                    *[an.fields['bg_cache'][0] is None and an.fields['bg_cache'][1] is None for an in F['antennas']]))
 
 
-def request(vc, later):
+def request(vc, later, view_cache=False):
     nant = 1 + vc.choose(3 if vc.tier != 'thorough' else 4, 'num_antennas')
     npol = 1 + vc.choose(2, 'num_pols')
     out, P = build_array(vc, nant, npol, 'list')
@@ -105,16 +105,22 @@ def request(vc, later):
             bg.fields['start_obs'] = False
             bg.fields['t_start'] = P['t0'] + g * dt
             bg.fields['rng'].pos = g
-        # heap shape left by the previous request (ownership part of the invariant): every stream still holds the buffer `v` of its
-        # last draw, and each antenna's cache is a *view* of the tail of the background stream's buffer - a later request must not
-        # write into that buffer before the cache has been consumed
-        Lp = Int('prev_bg_draw')
-        vc.assume(And(Lp >= mxd, Lp >= 1, Lp <= g))
-        for p, bg in enumerate(F['bg_streams']):
-            bg.fields['v'] = SArr((Lp,), (lambda p: (lambda idx: BG(spec, P, p, g - Lp + idx[0])))(p), 'real')
+        prev_bufs = []
+        if view_cache:
+            # heap shape left by the previous request (ownership part of the invariant): every background stream still holds the buffer
+            # `v` of its last draw, and each antenna's cache is a *view* of the tail of that buffer - a later request must not write
+            # into that buffer (it has to draw into a fresh one), because the caches are consumed after the new draw
+            Lp = Int('prev_bg_draw')
+            vc.assume(And(Lp >= mxd, Lp >= 1, Lp <= g))
+            for p, bg in enumerate(F['bg_streams']):
+                bg.fields['v'] = SArr((Lp,), (lambda p: (lambda idx: BG(spec, P, p, g - Lp + idx[0])))(p), 'real')
+                prev_bufs.append((bg.fields['v'], bg.fields['v'].writes))
         for i, an in enumerate(F['antennas']):
             d = P['ds'][i]
-            an.fields['bg_cache'] = [vc.interp.getitem(F['bg_streams'][p].fields['v'], slice(Lp - d, None)) for p in range(npol)] + [None] * (2 - npol)
+            if view_cache:
+                an.fields['bg_cache'] = [vc.interp.getitem(F['bg_streams'][p].fields['v'], slice(Lp - d, None)) for p in range(npol)] + [None] * (2 - npol)
+            else:
+                an.fields['bg_cache'] = [SArr((d,), (lambda p, d: (lambda idx: BG(spec, P, p, g - d + idx[0])))(p, d), 'real') for p in range(npol)] + [None] * (2 - npol)
             for p, st in enumerate(an.fields['streams']):
                 st.fields['start_obs'] = False
                 st.fields['t_start'] = P['t0'] + N * dt
@@ -129,6 +135,10 @@ def request(vc, later):
     vc.cover('reachable')
     vc.ensure(f'C15/get_samples/{tag}/exc/none', res.ok)
     if not res.ok:
+        return
+    if later and view_cache:
+        vc.ensure('C15/get_samples/later-request/frame/previous-background-buffers-not-written-while-the-caches-view-them',
+                  all(buf.writes == w0 for buf, w0 in prev_bufs))
         return
     v = res.value
     k = Int('k')
@@ -161,6 +171,11 @@ def first_request(vc):
 @contract('C15', 'later_request', functions=[MA + '.get_samples', 'setigen.voltage.data_stream:DataStream.get_samples'])
 def later_request(vc):
     request(vc, True)
+
+
+@contract('C15', 'later_request_cache_ownership', functions=[MA + '.get_samples', 'setigen.voltage.data_stream:DataStream._update_t'])
+def later_request_ownership(vc):
+    request(vc, True, view_cache=True)
 
 
 @contract('C15', 'reset_clears_background', functions=[MA + '.set_time', MA + '.add_time', MA + '.reset_start'])
